@@ -11,10 +11,6 @@ open BbRe.Sched BbRe.SchedTree BbRe.Lemmas.SchedInv
 
 /-! ### helpers -/
 
-/-- a frame step of `Sched` keeps the tree part of the invariant -/
-theorem TS.sframe {X : List (ScqId × List Nat)} {ts : TState} {s' : State} (h : TS X ts) (hf : SFrame ts.s s') :
-    TS X (ts.setS s') :=
-  ⟨TreeOK.of_sframe h.tree hf, h.side.of_sframe hf⟩
 
 /-- every operation is stored under its own name -/
 theorem oid_of_inv {ex exo} {s : State} (hI : InvX ex exo s) : ∀ k op, s.op? k = some op → op.name = k :=
